@@ -366,7 +366,8 @@ def dt_interacting_programs(draw):
     decisions with mixed polarity (plus possibly a chance fact), utilities on the derived atoms, costs (or small
     rewards) on individual decisions.  The statements - hence the declaration order of the decisions, the order of
     the utilities and so the order in which DT-ProbLog grounds and tries the decisions - are shuffled; so are the
-    literals of every body.  E.g.  0.5::c. ?::x. ?::y. r :- y, \\+x. s :- x, y, c. utility(r,1). utility(s,10).
+    literals of every body.  Half of these programs contain a 'synergy' pair (s1 :- B, \\+A with a small utility,
+    s2 :- A, B[, chance] with a large one, a cost on A) next to 0-2 random derived atoms.  E.g.  0.5::c. ?::x. ?::y. r :- y, \\+x. s :- x, y, c. utility(r,1). utility(s,10).
     utility(x,-2)."""
     ndec = draw(st.integers(2, 3))
     decs = [[n, []] for n in ["x", "y", "z"][:ndec]]
@@ -375,8 +376,28 @@ def dt_interacting_programs(draw):
     stmts = [["dfact", d] for d in decs]
     for c in chances:
         stmts.append(["pfact", draw(st.sampled_from(gp.PROB_GRID[1:-1])), c])
-    nder = draw(st.integers(2, 4))
     derived = []
+    utils = []
+    if draw(st.booleans()):
+        # synergy: B alone pays a little (only without A), A and B together pay a lot, A alone only costs -
+        # from 'nothing chosen' the only improving flip is B, after which A becomes worth its cost
+        a, b = list(draw(st.permutations(decs)))[:2]
+        l1 = list(draw(st.permutations([[False, b[0], b[1]], [True, a[0], a[1]]])))
+        l2 = [[False, a[0], a[1]], [False, b[0], b[1]]]
+        if chances and draw(st.booleans()):
+            c = draw(st.sampled_from(chances))
+            l2.append([False, c[0], c[1]])
+        l2 = list(draw(st.permutations(l2)))
+        stmts.append(["rule", ["s1", []], l1])
+        stmts.append(["rule", ["s2", []], l2])
+        utils.append(["utility", ["s1", []], False, draw(st.sampled_from(["0.5", "1", "2"]))])
+        utils.append(["utility", ["s2", []], False, draw(st.sampled_from(["5", "10"]))])
+        utils.append(["utility", a, False, draw(st.sampled_from(["-0.5", "-1", "-2", "-3"]))])
+        decs_for_cost = [d for d in decs if d != a]
+        nder = draw(st.integers(0, 2))
+    else:
+        decs_for_cost = decs
+        nder = draw(st.integers(2, 4))
     for i in range(nder):
         h = ["r%d" % (i + 1), []]
         k = draw(st.integers(2, ndec)) if draw(st.integers(0, 4)) else 1
@@ -399,11 +420,10 @@ def dt_interacting_programs(draw):
         if draw(st.integers(0, 5)) == 0:
             ds2 = list(draw(st.permutations(decs)))[:2]
             stmts.append(["rule", h, [[draw(st.booleans()), d[0], d[1]] for d in ds2]])
-    utils = []
     for h in derived:
         if draw(st.integers(0, 3)) != 0 or not utils:
             utils.append(["utility", h, draw(st.integers(0, 5)) == 0, draw(st.sampled_from(UTIL_GRID))])
-    for d in decs:
+    for d in decs_for_cost:
         if draw(st.booleans()):
             utils.append(["utility", d, False, draw(st.sampled_from(COST_GRID))])
     return list(draw(st.permutations(stmts + utils)))
